@@ -34,6 +34,7 @@ def main():
     ap.add_argument("--no-evidence", action="store_true")
     ap.add_argument("--dump", default=None, help="self-test: write key->digest map here (fixed run counts, no evidence)")
     ap.add_argument("--max-runs", type=int, default=15)
+    ap.add_argument("--ops", default=None, help="comma list restricting the per-operation jobs")
     args = ap.parse_args()
     from sim import c12impl
 
